@@ -16,7 +16,7 @@ from copy import copy
 
 import numpy as np
 
-from odl.operator.operator import Operator
+from odl.operator.operator import Operator, OpNotImplementedError
 from odl.set import ComplexNumbers, Field, LinearSpace, RealNumbers
 from odl.set.space import LinearSpaceElement
 from odl.space import ProductSpace
@@ -851,8 +851,12 @@ class ConstantOperator(Operator):
     def adjoint(self):
         """Adjoint of the operator.
 
-        Only defined if the operator is the constant operator.
+        Only defined if the operator is linear, i.e., the zero operator.
         """
+        if not self.is_linear:
+            raise OpNotImplementedError(
+                'nonlinear operators have no adjoint')
+        return ZeroOperator(domain=self.range, range=self.domain)
 
     def derivative(self, point):
         """Derivative of this operator, always zero.
